@@ -89,6 +89,13 @@ class G:
                           ["E1", "E2", "(E1, E2)", "E3", "BaseException", "Exception", "KeyError", "StopIteration", "Inj"]
                 exc = self.rng.choice([c for c in choices if c not in used] or choices)
                 used.add(exc)
+                if not self.star and self.rng.random() < 0.12:
+                    # handlers that swallow silently: bare 'except:' / empty body (compiled code takes a shortcut for them)
+                    out.append("%sexcept%s:" % (ind, "" if self.rng.random() < 0.6 else " " + exc))
+                    out.append("%s    pass" % ind)
+                    if out[-2].strip() == "except:":
+                        break       # a bare except must be the last handler
+                    continue
                 if self.rng.random() < 0.5:
                     out.append("%s%s %s as e:" % (ind, kw, exc))
                     out.append("%s    %s" % (ind, self.x()))
@@ -101,6 +108,14 @@ class G:
                 out += self.block(depth, ind + "    ", in_loop, in_finally)
         if not has_handler or self.rng.random() < 0.5:
             out.append(ind + "finally:")
+            if not self.star and self.rng.random() < 0.18:
+                # a finally clause that cannot fail as a whole: its only statement swallows every error of the cleanup
+                out.append("%s    try:" % ind)
+                for _ in range(self.rng.randint(1, 2)):
+                    out.append("%s        %s" % (ind, self.p()))
+                out.append("%s    except:" % ind)
+                out.append("%s        pass" % ind)
+                return out
             out.append("%s    %s" % (ind, self.x()))
             out += self.block(depth, ind + "    ", in_loop, True)
         return out
@@ -255,7 +270,7 @@ def one_run(check, seed, i, cfg):
             return None
         from . import tracemon
         obs_n[0] += 1
-        return tracemon.Monitor("profile" if obs_n[0] % 2 else "trace", ms["name"] + ".py", ms.setdefault("spans", tracemon.function_spans(ms["src"])),
+        return tracemon.make(("profile", "trace", "both")[obs_n[0] % 3], ms["name"] + ".py", ms.setdefault("spans", tracemon.function_spans(ms["src"])),
                                    ms.setdefault("f19", sorted(tracemon.funcs_returning_inside_try_finally(ms["src"]))))
     for arg in (0, 1, 2):
         o = mk_observer()
